@@ -1,6 +1,7 @@
 //! C14 — socket transports deliver exactly what was sent (DESIGN.md §3 C14).
 mod accept;
 mod dgram;
+mod fault;
 mod stream;
 mod util;
 
@@ -18,5 +19,6 @@ fn main() {
     stream::run(&mut s);
     dgram::run(&mut s);
     accept::run(&mut s);
+    fault::run(&mut s);
     s.finish();
 }
